@@ -100,6 +100,9 @@ class ScriptedSocket(object):
             ev = self.send_script.pop(0)
             if ev == 'timeout':
                 raise socket.timeout('timed out')
+            if ev == 'error':
+                import errno as _e
+                raise OSError(_e.EAGAIN, 'Resource temporarily unavailable')
             k = max(1, min(int(ev), len(data))) if data else 0
         else:
             k = len(data)
@@ -168,6 +171,11 @@ def check_recv(c, st):
             return None
         for call in c['calls']:
             attempts = 0
+            abandon_after = None
+            if isinstance(call[-1], dict):
+                abandon_after = call[-1].get('abandon')
+                call = call[:-1]
+            abandoned = False
             while True:
                 try:
                     if call[0] == 'until':
@@ -186,6 +194,11 @@ def check_recv(c, st):
                     if p:
                         return p
                     attempts += 1
+                    if abandon_after is not None and attempts >= abandon_after:
+                        # the caller does not retry but goes on with its next call: nothing was consumed
+                        abandoned = True
+                        st.count('timed_out_calls_abandoned')
+                        break
                     st.count('timeouts_retried')
                     if attempts > len(c['script']) + 8:
                         return ('retry-does-not-progress:' + call[0], 'still timing out after %d retries (case %r)'
@@ -196,6 +209,9 @@ def check_recv(c, st):
                 except Exception as e:
                     res = ('exc', type(e).__name__)
                 break
+            if abandoned:
+                interesting = True
+                continue
             R = stream[len(delivered):]
             st.monitor_evals += 1
             if call[0] == 'recv':
@@ -262,6 +278,14 @@ def check_send(c, st):
                 if call[0] in ('send', 'sendall'):
                     handed += data
                 st.count('send_timeouts')
+            except OSError as e:
+                if 'error' not in c['send_script']:
+                    return ('send-raised:OSError', '%r raised %r (case %r)' % (call, e, c))
+                # the transport refused for now (EAGAIN): like a timeout, whatever was accepted stays accounted for
+                timed_out = True
+                if call[0] in ('send', 'sendall'):
+                    handed += data
+                st.count('send_oserrors')
             except Exception as e:
                 return ('send-raised:%s' % type(e).__name__, '%r raised %r (case %r)' % (call, e, c))
             st.monitor_evals += 1
@@ -278,13 +302,13 @@ def check_send(c, st):
             try:
                 bs.flush()
                 break
-            except su.Timeout:
+            except (su.Timeout, OSError):
                 continue
         st.monitor_evals += 1
         if bytes(sock.peer) != handed:
             return ('send-lost-or-duplicated', 'peer received %r, caller handed %r (case %r)'
                     % (bytes(sock.peer), handed, c))
-        if any(x == 'timeout' for x in c['send_script']) or any(isinstance(x, int) for x in c['send_script']):
+        if any(x in ('timeout', 'error') for x in c['send_script']) or any(isinstance(x, int) for x in c['send_script']):
             st.see(('send', repr(c['send_script']), repr(c['calls'])))
         st.count('send_cases')
         return None
@@ -389,14 +413,19 @@ def gen(r):
             script.append(['data', ch, r.choice([0, 0, 0, 0.01, 0.3, 7.0]) if timeout else 0])
         if timeout and r.random() < 0.3:
             script.append(['timeout'])
+        calls = gen_calls(r, stream)
+        if timeout and r.random() < 0.5:
+            calls = [(cl + [{'abandon': r.choice([1, 1, 2])}]) if (cl[0] != 'recv' and r.random() < 0.35) else cl
+                     for cl in calls]
         return {'kind': 'recv', 'stream': stream, 'script': script, 'timeout': timeout,
-                'recvsize': r.choice([1, 2, 3, 4, 8, 64, 4096]), 'calls': gen_calls(r, stream)}
+                'recvsize': r.choice([1, 2, 3, 4, 8, 64, 4096]), 'calls': calls}
     if x < 0.87:
         calls = []
         for _ in range(r.randint(1, 8)):
             k = r.choice(['send', 'send', 'sendall', 'buffer', 'buffer', 'flush'])
             calls.append([k] if k == 'flush' else [k, rbytes(r, r.choice([0, 1, 3, 10, 50]), b'xyz01')])
-        ss = [r.choice([1, 1, 2, 5, 1000, 'timeout']) for _ in range(r.randint(0, 12))]
+        ss = [r.choice([1, 1, 2, 5, 1000, 'timeout', 'error'] if r.random() < 0.5 else [1, 2, 5, 1000, 'timeout'])
+              for _ in range(r.randint(0, 12))]
         return {'kind': 'send', 'calls': calls, 'send_script': ss, 'timeout': r.choice([5.0, 0.5])}
     maxsize = r.choice([32768, 32768, 1000, 100, 10, 9])
     payloads = [rbytes(r, min(maxsize, r.choice([0, 0, 1, 2, 5, 9, 10, 11, 99, 100, 101, 300, 1000])),
